@@ -229,9 +229,28 @@ def _is_compute_call(c, fn, helpers):
     if isinstance(f, ast.Attribute) and f.attr == "_implementation":
         return True
     if isinstance(f, ast.Name) and f.id in helpers and f.id not in fn.params and f.id not in ("implements", "get_units", "_validate_units_consistency", "_validate_units_consistency_v2", "_sanitize_range", "_array_comp_helper"):
-        return True
+        # only a helper that (transitively) runs a NumPy implementation computes anything; a helper that merely
+        # inspects units (a predicate extracted from a handler) is not a place arguments could be forwarded to
+        return _reaches_numpy(f.id, helpers)
     if isinstance(f, ast.Attribute) and norm(f) in ("np.interp",):
         return True
+    return False
+
+
+def _reaches_numpy(name, helpers, depth=3, seen=None):
+    seen = seen or set()
+    if name in seen or depth < 0:
+        return False
+    seen.add(name)
+    for h in helpers.get(name, []):
+        for c in ast.walk(h.node):
+            if isinstance(c, ast.Call):
+                if isinstance(c.func, ast.Attribute) and (c.func.attr == "_implementation" or norm(c.func).startswith(("np.", "numpy."))):
+                    return True
+                if isinstance(c.func, ast.Name) and c.func.id in helpers and c.func.id != name and _reaches_numpy(c.func.id, helpers, depth - 1, seen):
+                    return True
+                if isinstance(c.func, ast.Name) and c.func.id in h.params:
+                    return True  # calls a function it was handed (product_helper(a, b, out, func))
     return False
 
 
